@@ -28,6 +28,9 @@ def tokenise(err):
     m = re.match(r"Child limit exceeded (\S+?)\.(\S+)$", s)
     if m:
         return [["limit", m.group(1), m.group(2)]]
+    m = re.match(r"Datatype (\S+) is not correct for (\S+?)\.(\S+)", s)
+    if m:
+        return [["datatype", m.group(2), m.group(3)]]
     m = re.match(r"Invalid children detected for <\w+ (\S*?)(?: \(.*?\))?(?: of type \S+)?>: \[(.*)\]$", s)
     if m:
         names = [x.strip().strip("'\"") for x in m.group(2).split(",") if x.strip()]
@@ -52,14 +55,27 @@ def field_records(seg, v, row, tab):
     return out
 
 
+def seg_record(seg, row, tab):
+    base = dict((r["name"], r["kind"] == "base") for r in tab)
+    last = max([r["i"] for r in tab]) if tab else 0
+    open_ended = bool(tab) and tab[-1]["kind"] == "varies"
+    extra = []
+    for f in seg.children:
+        nm = f.name or ""
+        if open_ended and nm.startswith(seg.name + "_") and nm[len(seg.name) + 1:].isdigit() and int(nm[len(seg.name) + 1:]) > last:
+            extra.append(nm)
+    return {"row": row, "name": seg.name, "table": [[r["name"], r["min"], r["max"]] for r in tab],
+            "kids": [f.name or "?" for f in seg.children], "extra": sorted(set(extra)),
+            "shape": [[f.name, len(list(f.children)), bool(base.get(f.name))] for f in seg.children if f.name in base]}
+
+
 def project(m, v):
     rows = []
     segs = []
     if m.classname == "Segment":       # a segment validated on its own
         tab = T.seg_rows(v, m.name) if len(m.name or "") == 3 else None
         if tab is not None and not m.is_z_element():
-            segs.append({"row": 0, "name": m.name, "table": [[r["name"], r["min"], r["max"]] for r in tab],
-                         "kids": [f.name or "?" for f in m.children]})
+            segs.append(seg_record(m, 0, tab))
             segs.extend(field_records(m, v, 0, tab))
         return rows, segs
 
@@ -74,8 +90,7 @@ def project(m, v):
             else:
                 tab = T.seg_rows(v, nm) if len(nm) == 3 else None
                 if tab is not None and not ch.is_z_element():     # ([] = a segment defined without fields)
-                    segs.append({"row": me, "name": nm, "table": [[r["name"], r["min"], r["max"]] for r in tab],
-                                 "kids": [f.name or "?" for f in ch.children]})
+                    segs.append(seg_record(ch, me, tab))
                     segs.extend(field_records(ch, v, me, tab))
     walk(m, 0)
     return rows, segs
@@ -86,6 +101,7 @@ def observe(m, v, sid, nodes, mode, mutation):
     rows, segs = project(m, v)
     parents = set([sid]) | set(r[0] for r in rows)
     fparents = set(x["name"] for x in segs if x.get("level") == "field")
+    sparents = set(x["name"] for x in segs if x.get("level") != "field")
     e = {"v": v, "sid": sid, "mode": mode, "mutation": mutation, "struct": nodes, "tree": rows, "segs": segs,
          "errors": [], "err_texts": [], "warn_texts": [], "err_texts2": [], "warn_texts2": [], "is_valid": False,
          "raised": "-", "file_lines": [], "path_lines": [], "outcome": "report"}
@@ -98,7 +114,7 @@ def observe(m, v, sid, nodes, mode, mutation):
         toks = []
         for x in r.errors:
             for t in tokenise(x):
-                if t[0] != "other" and t[1] in parents:
+                if t[0] != "other" and t[1] in parents and (t[0] != "datatype" or t[1] in sparents):
                     toks.append(t)
                 elif t[0] in ("missing", "limit") and t[1] in fparents:
                     toks.append(t)
@@ -199,6 +215,12 @@ def _chunk(args):
                 muts.append(("duplicate_field", rnd.choice(segs)))
                 muts.append(("z_segment", rnd.choice(segs)))
                 muts.append(("add_then_remove_field", rnd.choice(segs)))
+                opened = [(k, p, c) for (k, p, c) in segs if (T.seg_rows(v, c.name) or [{"kind": ""}])[-1]["kind"] == "varies"]
+                if opened:
+                    muts.append(("additional_fields_on_open_ended_segment", rnd.choice(opened)))
+                based = [(k, p, c) for (k, p, c) in segs if any(r["kind"] == "base" and r["max"] != 0 for r in (T.seg_rows(v, c.name) or []))]
+                if based:
+                    muts.append(("two_components_in_base_field", rnd.choice(based)))
                 bounded = [(k, p, c) for (k, p, c) in segs if any(r["max"] >= 2 for r in (T.seg_rows(v, c.name) or []))]
                 if bounded:
                     t = rnd.choice(bounded)
@@ -246,6 +268,13 @@ def _chunk(args):
                             m.children.remove(x)
                         else:
                             del m.zz1
+                    elif mut == "additional_fields_on_open_ended_segment":
+                        last_ = T.seg_rows(v, c.name)[-1]["i"]
+                        setattr(c, "%s_%d" % (c.name.lower(), last_ + 1), "x")
+                        c.add_field("%s_%d" % (c.name, last_ + 4)).value = "y"
+                    elif mut == "two_components_in_base_field":
+                        r_ = rnd.choice([r for r in T.seg_rows(v, c.name) if r["kind"] == "base" and r["max"] != 0])
+                        setattr(c, r_["name"].lower(), "1^2")
                     elif mut == "add_then_remove_field":
                         x = Field(version=v)
                         c.add(x)
